@@ -29,10 +29,22 @@ def make_symbols(spec):
 
 
 def text_of(build):
-    lines = [f'{k}: {json.dumps(v)}' for k, v in build['cfg'].items()]
+    lines = [f'{json.dumps(k)}: {json.dumps(v)}' for k, v in build['cfg'].items()]
     if build['kind'] == 'eval':
         lines.append('out: !eval |')
         lines += ['  ' + l for l in build['code'].split('\n')]
+    elif build['kind'] == 'eval-plain':
+        lines.append('out: !eval ' + build['code'])  # a plain (unquoted) one-line scalar: the code text must reach Python as written
+    elif build['kind'] == 'eval-two':
+        # the same code under two different paths of one config (cfg entries first, then the two nodes)
+        for key, ind in (('out', '  '), ('nested', None)):
+            if ind:
+                lines.append('out: !eval |')
+                lines += ['  ' + l for l in build['code'].split('\n')]
+            else:
+                lines.append('nested:')
+                lines.append('  second: !eval |')
+                lines += ['    ' + l for l in build['code'].split('\n')]
     elif build['kind'] == 'fstr-implicit':
         lines.append('out: ' + build['code'])       # a plain scalar f"...": picked up by the implicit resolver
     else:
@@ -49,6 +61,8 @@ def via_library(build):
     b.add_source(text_of(build), raw_yaml=True, filename=build.get('filename'))
     try:
         cfg = Config(b.build(), eval_ctx=EvalContext(eval_symbols=make_symbols(build.get('symbols', {}))))
+        if build['kind'] == 'eval-two':
+            return ['ok', [plain(cfg['out']), plain(cfg['nested']['second'])]]
         return ['ok', plain(cfg['out'])]
     except errors.EvalError as e:
         c = e.__cause__
@@ -65,10 +79,15 @@ def native(build):
     ns.update(build['cfg'])
     ns.update(make_symbols(build.get('symbols', {})))
     try:
-        if build['kind'] == 'eval':
-            lines = build['code'].strip().split('\n')
-            exec(compile('\n'.join(lines[:-1]), '<native>', 'exec'), ns)
-            return ['ok', plain(eval(compile(lines[-1].strip(), '<native>', 'eval'), ns))]
+        if build['kind'] in ('eval', 'eval-plain', 'eval-two'):
+            def once():
+                ns1 = dict(ns)
+                lines = build['code'].strip().split('\n')
+                exec(compile('\n'.join(lines[:-1]), '<native>', 'exec'), ns1)
+                return plain(eval(compile(lines[-1].strip(), '<native>', 'eval'), ns1))
+            if build['kind'] == 'eval-two':
+                return ['ok', [once(), once()]]          # every node computes in a namespace of its own
+            return ['ok', once()]
         src = build['code']
         if not (len(src) >= 3 and src[0] == 'f' and src[1] in '\'"' and src[-1] == src[1]):
             src = "f'" + src.replace("'", "\\'") + "'"
